@@ -21,7 +21,7 @@ DEFAULT_W = dict(label=10, const=3, instr=24, data=10, string=4, fill=4, zerount
 FAULTS = ['diamond_include', 'includer_file_label', 'nested_dup_include', 'undef_ref', 'register_ref', 'local_no_region', 'dup_label', 'neg_fill', 'align0', 'bad_escape', 'overflow',
           'unknown_zone', 'org_out', 'overlap', 'dup_include', 'missing_include', 'ambiguous_include', 'unmatched',
           'dup_zone', 'bad_zone', 'enum_bad', 'range_bad', 'const_fwd', 'dup_define', 'keyword_label', 'cross_region',
-          'cross_file', 'dup_label_same_line']
+          'cross_file', 'dup_label_same_line', 'register_label_other_case', 'dup_isa_symbol']
 
 
 def base_cfg(rng, prof):
@@ -428,6 +428,16 @@ class ProgGen:
             d = rng.choice([['label', 'xdup'], ['label', 'xdup'], ['const', 'XDUP', num(5)]])
             main.insert(j, list(d))
             inc.insert(j, list(d))
+        elif kind == 'register_label_other_case':
+            # a register name is a register name in any letter case, however the configuration spells it
+            up = rng.random() < 0.5
+            self.cfg['upper_regs'] = up
+            nm = rng.choice(['a', 'sp', 'b']) if up else rng.choice(['A', 'SP', 'Sp'])
+            main.insert(pos, rng.choice([['label', nm], ['const', nm, num(3)]]))
+        elif kind == 'dup_isa_symbol':
+            s0 = rng.choice(SYMS)
+            self.cfg['syms'] = [[s0, rng.choice(['1', '5'])], [s0, rng.choice(['2', '5'])]]
+            main.insert(pos, ['data', 1, [num(1)]])
         elif kind == 'neg_fill':
             main.insert(pos, ['fill', num(-2), num(9)])
         elif kind == 'align0':
